@@ -7,7 +7,7 @@ import shutil
 # ---- module-level blocks of fxpkg/mod.py: name -> (original, mutated) --------------------------------
 MOD_BLOCKS = [
     ("f_ok", "def f_ok(a, b):\n    return a\n", None),
-    ("f_ok2", "def f_ok2(x, y=0):\n    return [x]\n", None),
+    ("f_ok2", "def f_ok2(x: int, y=0):\n    return [x]\n", None),
     ("f_gen", "def f_gen(n):\n    for i in range(n):\n        yield i\n", None),
     ("f_wrapped", "@deco\ndef f_wrapped(a):\n    return a\n", None),
     ("f_removed", "def f_removed(a):\n    return a\n", ""),
@@ -170,7 +170,8 @@ STALE_BY = {
 DOUBLE_TAGS = ["params_argcls", "params_nontype", "params_nested", "yield_ret", "yieldcls", "yieldcls_list", "retcls",
                "arg_ret", "gonemod_nontype", "argcls_two", "nt_opt_fn", "nt_list_str", "nt_dict_mod", "nt_opt_int",
                "nt_yield_list", "nt_mod_ret"]
-ALWAYS_STALE = {"local": (NLE, "function defined in a local scope")}
+ALWAYS_STALE = {"local": (NLE, "function defined in a local scope"),
+                "local2": (NLE, "function defined in a local scope")}
 # decodes, but one traced parameter name no longer exists
 PARAMS_TAG = ("params", "f_params", "parameter names that no longer exist")
 VALID_TAGS = ["ok_a", "ok_b", "ok2", "gen", "wrapped", "meth", "cm", "sm", "prop", "td"]
